@@ -214,7 +214,7 @@ impl Engine for C17 {
             }
         }
         let calls = nlines + 3;
-        let mode = match r.below(15) {
+        let mode = match r.below(16) {
             0 | 1 => "direct",
             2 | 3 => "loop",
             4 => "array",
@@ -231,6 +231,9 @@ impl Engine for C17 {
             // the line-reading helper is declared at the bottom of a function, below its `return`
             // (definitions are visible throughout their block)
             11 => "hoisted",
+            // read_line on the right-hand side of `and` / `or`: it runs only when the left side leaves
+            // the answer open
+            12 => "shortcircuit",
             _ => "straight",
         };
         if mode == "filter" || mode == "cond" {
@@ -309,6 +312,23 @@ impl Engine for C17 {
         let mut res = RunResult::new();
         if case["mode"] == "real" {
             return exec_real(case);
+        }
+        // once per process, before anything else has read a line: the very first call is a call like
+        // any other (first line starting with U+FEFF, which a text-file reader might be tempted to eat)
+        static FIRST_CALL_PROBED: std::sync::atomic::AtomicBool = std::sync::atomic::AtomicBool::new(false);
+        if !FIRST_CALL_PROBED.swap(true, std::sync::atomic::Ordering::SeqCst) {
+            let text = "\u{feff}first line\n\u{feff}second\n";
+            fake_libc::install_stdin(StdinSim { data: text.as_bytes().to_vec(), ..StdinSim::default() });
+            let out = pipeline::run_library("shout(read_line(\"\"))\nshout(read_line(\"\"))\n", true, None);
+            fake_libc::take_stdin();
+            drain_carry_over();
+            let want: Vec<Vec<u8>> = text.lines().map(|l| l.as_bytes().to_vec()).collect();
+            match out {
+                pipeline::Outcome::Ran { out, err } if err.is_empty() && out == want => {}
+                other => {
+                    return res.violation("wrong-line", format!("the first read_line calls of the process, input {text:?}: {other:?}"));
+                }
+            }
         }
         drain_carry_over();
         let text = text_of(case);
@@ -403,6 +423,13 @@ impl Engine for C17 {
                     "hoisted" => format!(
                         "do main() start\n{}    return 0\n\n    do next_line() start\n        return read_line(\"\")\n    end\nend\nmain()\n",
                         "    shout(next_line())\n".repeat(calls)
+                    ),
+                    "shortcircuit" if calls >= 2 => format!(
+                        "make i get 0\ndo more() start\n    shout(read_line(\"\"))\n    return true\nend\n\
+                         jasi (i small pass {k} and more()) start\n    i get i add 1\nend\n\
+                         if to say ((1 na 1) or more()) start\n    i get i add 1\nend\n{}",
+                        "shout(read_line(\"\"))\n".repeat(calls - (calls - 1).min(5)),
+                        k = (calls - 1).min(5)
                     ),
                     "cond" => {
                         let k = stop_line(case);
@@ -697,7 +724,7 @@ impl Engine for C17 {
          one line per read, 1 byte, fixed k, random, aligned to end on/before/after each newline, 8 KiB-aligned) \
          + mode (script straight-line / loop / collect-into-array / first results unused / behind one or two \
          user functions with unused results / filtering loop that skips most of 150-1530 lines with `next` on a \
-         512-1024 KiB frame arena / read_line in a loop condition until a sentinel line, same arena / a helper declared below its function's `return`, or direct sys::stdin::read_line) + optional injected read error (it may \
+         512-1024 KiB frame arena / read_line in a loop condition until a sentinel line, same arena / a helper declared below its function's `return` / read_line on the right of `and`/`or`, or direct sys::stdin::read_line) + optional injected read error (it may \
          surface, or be retried inside read_line; either way no call may return a wrong line). Non-trivial = some read returned bytes past a newline, or the buffer had to grow \
          past 8 KiB, or a multi-byte character was split across reads. Distinct = hash of text shape, mode and \
          the (asked, returned) log of every read."
